@@ -27,6 +27,7 @@ var (
 	fvPtr    = &payloadT{"fallback"}
 	junkPtr  = &payloadT{"junk-from-failed-attempt"}
 	pvPtr2   = &payloadT{"prep-second-run"}
+	growBuf  = make([]int, 8)
 	evPtr2   = &payloadT{"exec-second-run"}
 	evResult = flyt.NewResult(7) // a payload that is itself a (non-error) Result value
 	errPrep  = errors.New("prep-failed")
@@ -242,6 +243,24 @@ func genC01(tier string) []Scenario {
 				out = append(out, lifecycleScenario(name, sp, placeDirect, fullMenu(prepVals[:1])))
 			}
 		}
+	}
+	// the prep value of successive runs of one node object is a slice over THE SAME backing array
+	// with another length each time (a queue the caller appends to in place, or re-slices): exec and
+	// post receive exactly the slice prep returned in THAT run
+	for _, kind := range []int{kBase, kFuncR, kFuncA, kFuncRB} {
+		sp := &spec{id: "n", kind: kind, n: 2, fb: kind == kFuncRB}
+		name := fmt.Sprintf("lifecycle kind=%s N=2 place=%s runs=3(prep returns one backing array at lengths 2, 3, 1)", kindNames[kind], placeName(placeDirect))
+		full := fullMenu(prepVals[:1])
+		out = append(out, lifecycleScenarioRuns(name, sp, placeDirect, func(h *H, c call) []answer {
+			if c.ph == pPrep {
+				return []answer{{val: growBuf[:[]int{2, 3, 1}[h.runNo%3]]}}
+			}
+			m := full(h, c)
+			if len(m) > 2 {
+				m = m[:2]
+			}
+			return m
+		}, 3))
 	}
 	// HUGE budgets (the largest int, 2^20): legal settings; the attempts actually made are few (the
 	// third one always succeeds), nothing may depend on the size of the budget itself
